@@ -5,12 +5,14 @@ use crate::uni::Uni;
 
 pub mod c01;
 pub mod c02;
+pub mod c03;
 pub mod c09;
 
 pub fn run(id: &str, tier: Tier, seed: u64) -> Option<i32> {
     Some(match id {
         "C01" => c01::run(tier, seed),
         "C02" => c02::run(tier, seed),
+        "C03" => c03::run(tier, seed),
         "C09" => c09::run(tier, seed),
         _ => return None,
     })
